@@ -115,8 +115,9 @@ class CLib:
         walk2(self.rtype, [0], [])
         return pats
 
-    def image(self, v, raw=False):
-        """Memory image of value tree v: every leaf written little-endian in its storage size."""
+    def image(self, v, raw=False, be=False):
+        """Memory image of value tree v: every leaf written in its storage size, little-endian
+        (or big-endian: storage as a big-endian host would hold it)."""
         mem = bytearray(self.sizeof)
         flat = []
         self._flat(v, self.rtype, flat)
@@ -125,7 +126,7 @@ class CLib:
         for (p, idxs), x in zip(order, flat):
             off, size, strides, lt, dims = self.leaves[p]
             a = off + sum(i * s for i, s in zip(idxs, strides))
-            mem[a:a + size] = (int(x) & ((1 << (8 * size)) - 1)).to_bytes(size, "little")
+            mem[a:a + size] = (int(x) & ((1 << (8 * size)) - 1)).to_bytes(size, "big" if be else "little")
         return mem
 
     def _order(self):
@@ -133,14 +134,14 @@ class CLib:
             self._ord = self.leaf_order()
         return self._ord
 
-    def read_image(self, mem):
+    def read_image(self, mem, be=False):
         """Memory -> tree (declaration order) of storage bit vectors (LSB first)."""
         order = self._order()
         flat = []
         for p, idxs in order:
             off, size, strides, lt, dims = self.leaves[p]
             a = off + sum(i * s for i, s in zip(idxs, strides))
-            x = int.from_bytes(mem[a:a + size], "little")
+            x = int.from_bytes(mem[a:a + size], "big" if be else "little")
             flat.append([(x >> b) & 1 for b in range(8 * size)])
         it = iter(flat)
 
